@@ -184,6 +184,10 @@ func (c *SpecCtx) evalIdent(x *ast.Ident) *SV {
 	if sv, ok := c.names[x.Name]; ok {
 		return sv
 	}
+	// ghost globals
+	if gg := c.findGhostGlobal(x.Name); gg != nil {
+		return c.loadGhostGlobal(gg)
+	}
 	// package-level constants and variables
 	if c.pkg != nil {
 		if obj := c.pkg.Scope().Lookup(x.Name); obj != nil {
@@ -456,6 +460,9 @@ func (c *SpecCtx) svEq(a, b *SV) *Term {
 	if t == nil {
 		return Eq(c.term(a, ""), c.term(b, ""))
 	}
+	if _, ok := isSeqType(c.ex.env.resolve(t)); ok {
+		return Eq(a.V.T, b.V.T)
+	}
 	// nil compared with slice
 	if _, ok := c.ex.env.resolve(t).Underlying().(*types.Slice); ok {
 		if isUntypedNil(a.T) {
@@ -464,7 +471,12 @@ func (c *SpecCtx) svEq(a, b *SV) *Term {
 		if isUntypedNil(b.T) {
 			return Eq(a.V.Sl.Arr, IntLit(0))
 		}
-		c.fail("slices can only be compared with nil; use sameArray/off/len")
+		// slice equality in specs is identity of the slice headers
+		sa, sb := a.V.Sl, b.V.Sl
+		if sa == nil || sb == nil {
+			c.fail("slice comparison of non-slice values: %v (%v) vs %v (%v)", a.V, a.T, b.V, b.T)
+		}
+		return And(Eq(sa.Arr, sb.Arr), Eq(sa.Off, sb.Off), Eq(sa.Len, sb.Len), Eq(sa.Cap, sb.Cap))
 	}
 	if a.V.T != nil && b.V.T != nil {
 		ta, tb := a.V.T, b.V.T
@@ -606,6 +618,10 @@ func (c *SpecCtx) evalIndex(x *ast.IndexExpr) *SV {
 		c.fail("index of untyped value")
 	}
 	bt := c.ex.env.resolve(base.T)
+	if el, ok := isSetType(bt); ok {
+		i := c.term(c.eval(x.Index), c.ex.env.scalarSort(el))
+		return boolSV(Select(base.V.T, i))
+	}
 	if el, ok := isSeqType(bt); ok {
 		i := c.term(c.eval(x.Index), c.ex.env.IntS())
 		return &SV{V: scalar(Select(base.V.T, i)), T: el}
@@ -709,6 +725,10 @@ func (c *SpecCtx) resolveType(e ast.Expr) types.Type {
 		if id, ok := x.X.(*ast.Ident); ok && id.Name == "seq" {
 			el := c.resolveType(x.Index)
 			return seqType(el, c.ex.env.typeKey(el))
+		}
+		if id, ok := x.X.(*ast.Ident); ok && id.Name == "set" {
+			el := c.resolveType(x.Index)
+			return setType(el, c.ex.env.typeKey(el))
 		}
 	}
 	c.fail("cannot resolve type %s", exprString(e))
@@ -854,7 +874,7 @@ func (c *SpecCtx) evalCall(x *ast.CallExpr) *SV {
 		if oldSt == nil {
 			oldSt = c.st
 		}
-		return boolSV(And(Neq(ref, IntLit(0)), Not(Select(ex.allocArr(oldSt), ref)), Select(ex.allocArr(c.st), ref)))
+		return boolSV(And(Gt(ref, IntLit(0)), Not(Select(ex.allocArr(oldSt), ref)), Select(ex.allocArr(c.st), ref)))
 	case "allocated":
 		a := c.eval(x.Args[0])
 		var ref *Term
@@ -873,6 +893,37 @@ func (c *SpecCtx) evalCall(x *ast.CallExpr) *SV {
 	case "arr":
 		a := c.eval(x.Args[0])
 		return &SV{V: scalar(a.V.Sl.Arr), T: types.Typ[types.UnsafePointer]}
+	case "in":
+		a, set := c.eval(x.Args[0]), c.eval(x.Args[1])
+		el, ok := isSetType(c.ex.env.resolve(set.T))
+		if !ok {
+			c.fail("in(x, S): S is not a set")
+		}
+		return boolSV(Select(set.V.T, c.term(a, ex.env.scalarSort(el))))
+	case "add", "remove":
+		set, a := c.eval(x.Args[0]), c.eval(x.Args[1])
+		el, ok := isSetType(c.ex.env.resolve(set.T))
+		if !ok {
+			c.fail("%s(S, x): S is not a set", id.Name)
+		}
+		v := TTrue
+		if id.Name == "remove" {
+			v = TFalse
+		}
+		return &SV{V: scalar(Store(set.V.T, c.term(a, ex.env.scalarSort(el)), v)), T: set.T}
+	case "rangeVisited":
+		a := c.eval(x.Args[0])
+		vis := ex.currentRangeVisited(c.st)
+		if vis == nil {
+			c.fail("rangeVisited: no (unique) map range in this function")
+		}
+		ks, _ := vis.Sort.ArrayParts()
+		return boolSV(Select(vis, c.term(a, ks)))
+	case "cast":
+		// cast(T, x): the same reference viewed at (pointer/interface) type T
+		t := c.resolveType(x.Args[0])
+		a := c.eval(x.Args[1])
+		return &SV{V: scalar(ex.valTerm(a.V)), T: t}
 	case "strdata":
 		a := c.eval(x.Args[0])
 		return &SV{V: scalar(ex.strData(a.V.T)), T: types.Typ[types.UnsafePointer]}
@@ -1045,10 +1096,9 @@ func (c *SpecCtx) evalQuant(kind string, x *ast.CallExpr) *SV {
 		inner := c.with(map[string]*SV{id.Name: {V: scalar(bv), T: t}})
 		body := inner.EvalBool(x.Args[2])
 		// typed quantification ranges over well-typed values
+		// typed quantifiers range over the whole sort (typing facts such as
+		// string lengths are global axioms, not guards)
 		ti := TTrue
-		if _, _, isInt := intInfo(ex.env.resolve(t)); !isInt {
-			ti = ex.typeInv(t, scalar(bv), nil)
-		}
 		if kind == "forall" {
 			return mk(bv, Implies(ti, body))
 		}
@@ -1444,4 +1494,40 @@ func ufPatterns(body *Term, bound *Term, d *Decls) [][]*Term {
 
 func hasUFPattern(body *Term, bound *Term, d *Decls) bool {
 	return len(ufPatterns(body, bound, d)) > 0
+}
+
+func (c *SpecCtx) findGhostGlobal(name string) *GhostGlobal {
+	if gg := c.ex.P.Specs.GGlobals[c.pkgPath()+"."+name]; gg != nil {
+		return gg
+	}
+	var found *GhostGlobal
+	for k, gg := range c.ex.P.Specs.GGlobals {
+		if strings.HasSuffix(k, "."+name) {
+			if found != nil {
+				return nil
+			}
+			found = gg
+		}
+	}
+	return found
+}
+
+func (c *SpecCtx) ghostGlobalType(gg *GhostGlobal) types.Type {
+	var pkg *types.Package
+	if sp := c.ex.P.SPkgs[gg.PkgPath]; sp != nil {
+		pkg = sp.Pkg
+	}
+	cc := *c
+	cc.pkg = pkg
+	return cc.resolveType(gg.Type)
+}
+
+func ghostGlobalKey(gg *GhostGlobal) string { return "GG " + shortKey(gg.PkgPath) + "." + gg.Name }
+
+func (c *SpecCtx) loadGhostGlobal(gg *GhostGlobal) *SV {
+	t := c.ghostGlobalType(gg)
+	v := c.ex.buildVal(t, "", func(l Leaf) *Term {
+		return c.ex.heapGet(c.st, ghostGlobalKey(gg)+" "+l.Path, l.Sort)
+	})
+	return &SV{V: v, T: t}
 }
